@@ -814,7 +814,12 @@ class RemoteStreamFlowPath(
         if (inner_path := await self._get_inner_path()) != self:
             await inner_path.hardlink_to(target)
         else:
-            command = ["ln", "-nf", str(target), self.__str__()]
+            command = [
+                "ln",
+                "-nf",
+                shlex.quote(str(target)),
+                shlex.quote(self.__str__()),
+            ]
             result, status = await self.connector.run(
                 location=self.location, command=command, capture_output=True
             )
